@@ -199,6 +199,9 @@ type Builder struct {
 	patcher  map[*ssa.Function]bool
 	frames   map[string]*frame
 	lits     map[string]*Literal // instruction literals returned by helper functions, by id (see env.rets)
+	allFns   []*ssa.Function
+	opTabs   map[*ssa.Global]map[string]map[string]*origin.O // dispatch tables: map[Operation]row literals of the package
+	more     []*state                                        // further successors of the branch just evaluated (table dispatch)
 	nodes    map[string]*Node
 	pending  []pendingNode
 	opIndex  map[string]int
@@ -375,7 +378,7 @@ func (b *Builder) Emitters() []*ssa.Function {
 
 // NewBuilder prepares the classification of the package's functions.
 func NewBuilder(pkg *ssa.Package, all []*ssa.Function, cfg Config) *Builder {
-	b := &Builder{Pkg: pkg, PkgPath: pkg.Pkg.Path(), cfg: cfg, progType: programType(pkg)}
+	b := &Builder{Pkg: pkg, PkgPath: pkg.Pkg.Path(), cfg: cfg, progType: programType(pkg), allFns: all, opTabs: map[*ssa.Global]map[string]map[string]*origin.O{}}
 	b.opIndex = map[string]int{}
 	for i, o := range cfg.AllOps {
 		b.opIndex[o] = i
@@ -463,6 +466,11 @@ func (b *Builder) resolver(fr *frame, e env) *origin.Resolver {
 			}
 			return nil
 		}
+		if of != nil && len(e.ops) > 0 {
+			if o := b.tableCell(v, of, e); o != nil {
+				return o
+			}
+		}
 		ph, ok := v.(*ssa.Phi)
 		if !ok || of == nil {
 			return nil
@@ -473,6 +481,192 @@ func (b *Builder) resolver(fr *frame, e env) *origin.Resolver {
 		return nil
 	}
 	return r
+}
+
+// opTableOf: v is the load of a package-level map keyed by Operation whose value is a literal that nothing modifies;
+// returns row -> field -> constant ("" for a non-struct value).
+func (b *Builder) opTableOf(v ssa.Value) (map[string]map[string]*origin.O, bool) {
+	ld, ok := v.(*ssa.UnOp)
+	if !ok || ld.Op != token.MUL {
+		return nil, false
+	}
+	g, ok := ld.X.(*ssa.Global)
+	if !ok || g.Pkg != b.Pkg {
+		return nil, false
+	}
+	if t, ok := b.opTabs[g]; ok {
+		return t, t != nil
+	}
+	b.opTabs[g] = nil
+	mt, ok := g.Type().Underlying().(*types.Pointer).Elem().Underlying().(*types.Map)
+	if !ok || !isOperationType(mt.Key()) {
+		return nil, false
+	}
+	ini, _ := b.Pkg.Members["init"].(*ssa.Function)
+	if ini == nil {
+		return nil, false
+	}
+	// the initialiser: *g = m with m a fresh map filled by constant-keyed updates
+	var mm *ssa.MakeMap
+	for _, blk := range ini.Blocks {
+		for _, in := range blk.Instrs {
+			if st, ok := in.(*ssa.Store); ok && st.Addr == ssa.Value(g) {
+				if mm != nil {
+					return nil, false
+				}
+				mm, _ = st.Val.(*ssa.MakeMap)
+				if mm == nil {
+					return nil, false
+				}
+			}
+		}
+	}
+	if mm == nil {
+		return nil, false
+	}
+	// nothing else writes the table
+	for _, f := range b.allFns {
+		if f == ini {
+			continue
+		}
+		for _, blk := range f.Blocks {
+			for _, in := range blk.Instrs {
+				switch x := in.(type) {
+				case *ssa.Store:
+					if x.Addr == ssa.Value(g) {
+						return nil, false
+					}
+				case *ssa.MapUpdate:
+					if l2, ok := x.Map.(*ssa.UnOp); ok && l2.X == ssa.Value(g) {
+						return nil, false
+					}
+				case *ssa.Call:
+					if bi, ok := x.Call.Value.(*ssa.Builtin); ok && bi.Name() == "delete" {
+						if l2, ok := x.Call.Args[0].(*ssa.UnOp); ok && l2.X == ssa.Value(g) {
+							return nil, false
+						}
+					}
+				}
+			}
+		}
+	}
+	r := origin.NewResolver()
+	tab := map[string]map[string]*origin.O{}
+	for _, ref := range *mm.Referrers() {
+		mu, ok := ref.(*ssa.MapUpdate)
+		if !ok {
+			if _, isStore := ref.(*ssa.Store); isStore {
+				continue
+			}
+			if _, isDbg := ref.(*ssa.DebugRef); isDbg {
+				continue
+			}
+			return nil, false
+		}
+		k, ok := mu.Key.(*ssa.Const)
+		if !ok || k.Value == nil || k.Value.Kind() != constant.String {
+			return nil, false
+		}
+		row := map[string]*origin.O{}
+		if ldv, ok := mu.Value.(*ssa.UnOp); ok && ldv.Op == token.MUL {
+			al, ok := ldv.X.(*ssa.Alloc)
+			st, isStruct := ldv.Type().Underlying().(*types.Struct)
+			if !ok || !isStruct {
+				return nil, false
+			}
+			for i := 0; i < st.NumFields(); i++ {
+				row[st.Field(i).Name()] = &origin.O{Kind: origin.KConst, Type: st.Field(i).Type()}
+			}
+			for _, r2 := range *al.Referrers() {
+				fa, ok := r2.(*ssa.FieldAddr)
+				if !ok {
+					continue
+				}
+				for _, r3 := range *fa.Referrers() {
+					if stt, ok := r3.(*ssa.Store); ok && stt.Addr == ssa.Value(fa) {
+						o := r.Of(stt.Val, nil, stt)
+						if o.Kind != origin.KConst && o.StripConv().Kind != origin.KConst {
+							return nil, false
+						}
+						row[st.Field(fa.Field).Name()] = o
+					}
+				}
+			}
+		} else {
+			o := r.Of(mu.Value, nil, mu)
+			if o.StripConv().Kind != origin.KConst {
+				return nil, false
+			}
+			row[""] = o
+		}
+		tab[constant.StringVal(k.Value)] = row
+	}
+	if len(tab) == 0 {
+		return nil, false
+	}
+	b.opTabs[g] = tab
+	return tab, true
+}
+
+// tableCell: v reads a dispatch table at the operation that is known in this world: the row's constant.
+func (b *Builder) tableCell(v ssa.Value, of *origin.Frame, e env) *origin.O {
+	var lk *ssa.Lookup
+	field := ""
+	switch x := v.(type) {
+	case *ssa.Field:
+		ex, ok := x.X.(*ssa.Extract)
+		if ok && ex.Index == 0 {
+			lk, _ = ex.Tuple.(*ssa.Lookup)
+		} else if l2, ok := x.X.(*ssa.Lookup); ok && !l2.CommaOk {
+			lk = l2
+		}
+		if lk != nil {
+			st, ok := x.X.Type().Underlying().(*types.Struct)
+			if !ok {
+				return nil
+			}
+			field = st.Field(x.Field).Name()
+		}
+	case *ssa.Extract:
+		if x.Index == 0 {
+			lk, _ = x.Tuple.(*ssa.Lookup)
+		}
+		if lk != nil {
+			if _, isStruct := x.Type().Underlying().(*types.Struct); isStruct {
+				field = "<row>"
+			}
+		}
+	case *ssa.Lookup:
+		if !x.CommaOk {
+			lk = x
+			if _, isStruct := x.Type().Underlying().(*types.Struct); isStruct {
+				field = "<row>"
+			}
+		}
+	}
+	if lk == nil {
+		return nil
+	}
+	tab, ok := b.opTableOf(lk.X)
+	if !ok {
+		return nil
+	}
+	mask, have := e.ops[of.ID]
+	if !have || mask == 0 || mask&(mask-1) != 0 {
+		return nil // the operation is not a single known one here
+	}
+	for i, name := range b.cfg.AllOps {
+		if mask == 1<<uint(i) {
+			if row, ok := tab[name]; ok {
+				if field == "<row>" {
+					// the whole row (stored into a local and read field by field)
+					return &origin.O{Kind: origin.KStructLit, Type: v.Type(), Val: v, Name: "row:" + name, Fields: row}
+				}
+				return row[field]
+			}
+		}
+	}
+	return nil
 }
 
 // labelOf resolves a Label-typed value to its creation site.
@@ -957,7 +1151,12 @@ func (b *Builder) next(s state, seen map[string]bool) []*Node {
 		case *ssa.Jump:
 			s = b.enter(s, s.blk, s.blk.Succs[0])
 		case *ssa.If:
+			b.more = nil
 			t, f := b.branch(x, s)
+			for _, m := range b.more {
+				add(b.next(*m, seen))
+			}
+			b.more = nil
 			switch {
 			case t != nil && f != nil:
 				add(b.next(*t, seen))
@@ -1227,6 +1426,48 @@ func (b *Builder) branch(ifi *ssa.If, s state) (t, f *state) {
 		tBlk, fBlk = fBlk, tBlk
 	}
 	res := b.resolver(s.fr, s.env)
+	// ---- operation dispatch through a table: `row, ok := table[c.Operation]` with a package-level map literal keyed by
+	// Operation: one world per key of the table that is still possible (the row's fields are then known constants), and
+	// one for the operations that are not in the table
+	if ex, ok := cond.(*ssa.Extract); ok && ex.Index == 1 {
+		if lk, ok := ex.Tuple.(*ssa.Lookup); ok && lk.CommaOk {
+			if tab, isTab := b.opTableOf(lk.X); isTab {
+				if o := res.Of(lk.Index, s.fr.of, ifi); o.Kind == origin.KField && o.Field.Name() == "Operation" {
+					cur, have := s.env.ops[s.fr.id]
+					if !have {
+						cur = b.allOpsMask()
+					}
+					var keyMask uint32
+					for name := range tab {
+						if i, ok := b.opIndex[name]; ok {
+							keyMask |= 1 << uint(i)
+						} else {
+							b.problem("dispatch table key %q is not a declared operation", name)
+						}
+					}
+					var trues []*state
+					for i := range b.cfg.AllOps {
+						bit := uint32(1) << uint(i)
+						if cur&keyMask&bit != 0 {
+							e := s.env.clone()
+							e.ops[s.fr.id] = bit
+							trues = append(trues, mk(tBlk, e))
+						}
+					}
+					if rest := cur &^ keyMask; rest != 0 {
+						e := s.env.clone()
+						e.ops[s.fr.id] = rest
+						f = mk(fBlk, e)
+					}
+					if len(trues) > 0 {
+						t = trues[0]
+						b.more = append(b.more, trues[1:]...)
+					}
+					return
+				}
+			}
+		}
+	}
 	if bo, ok := cond.(*ssa.BinOp); ok {
 		// ---- byte order: nativeEndian == binary.LittleEndian / BigEndian (one consistent world per exploration)
 		if bo.Op == token.EQL || bo.Op == token.NEQ {
